@@ -3,7 +3,7 @@ import random
 import pi2v, funcs, gen, lem, exprs, pexp
 from pi2v import tkey
 
-C02_CLAUSES = ('not-accepted', 'machine-rejects')
+C02_CLAUSES = ('not-accepted', 'machine-rejects', 'optimise-disagree')
 SHIPPED = ['propositional', 'substitution', 'small_theory', 'definedness', 'kore_lemmas', 'tautology']
 
 
@@ -49,6 +49,14 @@ def run(v, tier, clauses=C02_CLAUSES, tag='C02'):
     v.cov['modules'] = len(traces)
     v.sample({'src': traces[0]['src'], 'optimize': traces[0]['optimize'], 'events': len(traces[0]['events'])})
     v.sample({'src': traces[-1]['src'], 'spec': traces[-1]['spec'], 'optimize': traces[-1]['optimize']})
+    # pair the two optimise settings of the same module: a run-time refusal under one setting only is a disagreement
+    bykey = {}
+    for t in traces:
+        bykey.setdefault((t['src'], tkey(t['spec'])), []).append(t)
+    for grp in bykey.values():
+        for t in grp:
+            others = [o for o in grp if o['optimize'] != t['optimize']]
+            t['final']['peer'] = 'none' if not others else ('ok' if any(o['error'] is None for o in others) else 'raise')
     for t in traces:
         if t['error'] is not None:
             t['final']['module'] = False       # the toolkit refused at run time: not a generated proof
@@ -61,7 +69,7 @@ def run(v, tier, clauses=C02_CLAUSES, tag='C02'):
         if base not in clauses:
             continue
         t = traces[tid - 1]
-        if base == 'machine-rejects' and t['error'] is not None:
+        if base == 'machine-rejects' and t['error'] is not None and t['final'].get('peer') != 'ok':
             continue
         v.fail(f"{clause}:{t['src']}:{t['optimize']}:{tkey(t['spec'])}",
                f"{t['src']} optimize={t['optimize']} {tkey(t['spec'])[:300]}: clause {clause} at event {line} (rust says {t['final']['rust']})",
